@@ -151,7 +151,9 @@ def run(repo: Repo, rep: Report) -> None:
     try:
         bad = None
         n_i = 0
-        for h, w, roots in ((2, 3, [(0, 2), None]), (3, 2, [(2, 1), (0, 0)]), (2, 2, None)):
+        # None entries before, between and after coordinates: each root keeps the label of its own position in the list
+        for h, w, roots in ((2, 3, [(0, 2), None]), (3, 2, [(2, 1), (0, 0)]), (2, 2, None), (2, 3, [None, (0, 0)]), (1, 3, [None, (0, 2)]),
+                            (3, 2, [None, None])):
             n_i += 1
             inst = Instance(repo)
             arr = inst.s.attrs["int_array"]((h, w), 0, 1)
